@@ -42,6 +42,8 @@ TNext ==
           /\ CASE ev.a = "Enter" -> Enter(ev.m) /\ UNCHANGED bad
                [] ev.a = "ExitNormal" -> ExitNormal /\ UNCHANGED bad
                [] ev.a = "ExitByException" -> ExitByException(ev.k) /\ UNCHANGED bad
+               [] ev.a = "OtherEnter" -> OtherEnter /\ UNCHANGED bad
+               [] ev.a = "OtherExit" -> OtherExit /\ UNCHANGED bad
                [] ev.a = "Probe" ->
                     /\ bad' = bad \cup {<<l, x>> : x \in ProbeClauses(ev)}
                                   \cup (IF ProbeClauses(ev) = {} /\ ProbeDrift(ev) THEN {<<l, "drift">>} ELSE {})
